@@ -62,7 +62,7 @@ Section Emit.
   (* emit_code_point_sequence *)
   Definition emit_cp_sequence (lb : bool) (cps_ : list N) (icase : bool) : R (list insn) :=
     if utf16_feature then
-      fold_left (fun acc cp =>
+      (fun l => fold_left (fun acc cp =>
                    do a <- acc;
                    let chars := expand_code_point cp icase unicode in
                    match chars with
@@ -70,13 +70,14 @@ Section Emit.
                    | [c] => Ok (a ++ [Char c])
                    | _ => if (4 <? length chars)%nat then Err Panic
                           else do i <- emit_char_set chars; Ok (a ++ i)
-                   end) cps_ (Ok [])
+                   end) l (Ok [])) (if lb then rev cps_ else cps_)
     else
       match lower_code_point_sequence cps_ icase unicode with
       | None => Err Panic
       | Some pieces =>
+          (* inside a lookbehind the pieces are emitted last to first *)
           fold_left (fun acc p => do a <- acc; do i <- emit_piece_node lb (node_of_piece p); Ok (a ++ i))
-                    pieces (Ok [])
+                    (if lb then rev pieces else pieces) (Ok [])
       end.
 
   (* emit_string_set: a right-leaning chain of Alt over the alternatives *)
